@@ -418,7 +418,7 @@ func litestream.WriteTXIDFile(outputPath, txid) (err)
   ensures [C11.content] err == nil ==> path_synced[txf_dst]
 
 func litestream.(*DB).checkDatabaseBehindReplica(db, ctx) (err)
-  requires db != nil && !pub_renamed
+  requires db != nil && db.Replica != nil && !pub_renamed
   modifies $heap, $alloc, file_written, path_synced, path_handle, file_closed, pub_dst, pub_renamed, it_idx
   at os.Create#all assert [C03.tmp-only] hasSuffix($arg0, ".tmp") && $arg0 == tmpPath
   at os.Rename#all assert [C03.publish-from-tmp] $arg0 == tmpPath && $arg1 == localPath && tmpPath == concat(localPath, ".tmp") && !pub_renamed
